@@ -57,12 +57,23 @@ def nameok (kind : String) (s : Str) : String :=
             | [t] => (match findAll N.name t with | n :: _ => n.flatten == s | [] => false)
             | _ => false)
         | _ => false)
+  -- names in declarations: the one attribute an attribute-list declaration defines, the name of the document type
+  | "decl-attr" =>
+      b2s (match parseDoc ("<!DOCTYPE r [<!ATTLIST r ".toList ++ s ++ " CDATA 'v'>]><r/>".toList) with
+        | .ok (d, []) => (match docDoctype d with
+            | some dt => dt.kids.any (fun | .attlist _ [a] => a.name.text == s | _ => false)
+            | none => false)
+        | _ => false)
+  | "doctype-name" =>
+      b2s (match parseDoc ("<!DOCTYPE ".toList ++ s ++ "><r/>".toList) with
+        | .ok (d, []) => (match docDoctype d with | some dt => dt.name.text == s | none => false)
+        | _ => false)
   -- the DOM factories (what the model's `step` accepts as a name)
   | "dom-pi" => b2s (Dom.validPITarget s && Dom.validPI s ['d'])
   | "dom-elem" | "dom-attr" => b2s (Dom.validQName s)
   | "dom-entref" => b2s (Dom.validName s && (predefined.find? (·.1 == s)).isSome)
   | "spec-dom-entref" => b2s ((predefined.find? (·.1 == s)).isSome)
-  | "lax-dom-pi" | "lax-dom-elem" | "lax-dom-attr" | "lax-dom-entref" => "0"
+  | "lax-dom-pi" | "lax-dom-elem" | "lax-dom-attr" | "lax-dom-entref" | "lax-decl-attr" | "lax-doctype-name" => "0"
   -- the Recommendation's answer (specification side, used by the monitor)
   | "spec-name" => b2s (Spec.isName s)
   | "spec-ncname" => b2s (Spec.isNCName s)
